@@ -64,13 +64,16 @@ XmiItems(sg) ==
                    kept.  A request that is in range for every file it meets has exactly one reading.
    A file the formats do not define (cut short, overwritten: kind "undefined") may be accepted or rejected; nothing is said
    about its playback, only the song count m the player reports afterwards is used to keep the readings complete.            *)
-Sess0 == [kind |-> "none", ok |-> FALSE, n |-> 0, req |-> 0, kept |-> {0}]
+Sess0 == [kind |-> "none", ok |-> FALSE, n |-> 0, req |-> 0, kept |-> {0}, um |-> 0]
 ClampAll(S, n) == { Clamp(c, 0, n - 1) : c \in S }
 SessXmi(S) == S.ok /\ S.kind = "xmi"
-SessSelect(S, k) == [S EXCEPT !.req = k, !.kept = IF SessXmi(S) THEN {Clamp(k, 0, S.n - 1)} ELSE {k}]
-SessLoad(S, kind, n, ok) == [S EXCEPT !.kind = kind, !.ok = ok, !.n = IF ok THEN n ELSE 0,
+\* (after a file the formats do not define that may have listed um >= 1 songs, the library may or may not hold that list: a
+\*  request made then may have been clamped against it)
+SessSelect(S, k) == [S EXCEPT !.req = k, !.kept = IF SessXmi(S) THEN {Clamp(k, 0, S.n - 1)}
+                                                  ELSE IF S.kind = "undefined" /\ S.um >= 1 THEN {k, Clamp(k, 0, S.um - 1)} ELSE {k}]
+SessLoad(S, kind, n, ok) == [S EXCEPT !.kind = kind, !.ok = ok, !.n = IF ok THEN n ELSE 0, !.um = 0,
                                       !.kept = IF ok /\ kind = "xmi" THEN ClampAll(@, n) ELSE @]
-SessLoadUndefined(S, m) == [S EXCEPT !.kind = "undefined", !.ok = FALSE, !.n = 0, !.kept = IF m >= 1 THEN @ \cup ClampAll(@, m) ELSE @]
+SessLoadUndefined(S, m) == [S EXCEPT !.kind = "undefined", !.ok = FALSE, !.n = 0, !.um = m, !.kept = IF m >= 1 THEN @ \cup ClampAll(@, m) ELSE @]
 \* opn2_getSongsCount: the sequences of the loaded XMI file; "1 or less" = a file with one song (or no file)
 SessCountOK(S, c) == IF SessXmi(S) THEN c = S.n ELSE c \in {0, 1}
 \* the songs (0-based) a play of the loaded file may deliver
